@@ -145,9 +145,18 @@ def run(ctx):
         try:
             # one downscaler object serves all chunks of a pyramid (every shape, every level): objects are reused
             # across cases with the same method and outside value
-            dkey = (method, str(outside))
+            # the method is spelled either by name or as the command-line default "auto", which the info's type
+            # resolves (image -> average, segmentation -> stride); both spellings take the same options
+            spelled = "auto" if method in ("average", "stride") and rng.random() < 0.5 else method
+            desc["method_spelling"] = spelled
+            ctx.hist("method_spelling", spelled)
+            dkey = (method, spelled, str(outside))
             if dkey not in reused:
-                reused[dkey] = downscaling.get_downscaler(method, info=None, options=opts)
+                if spelled == "auto":
+                    reused[dkey] = downscaling.get_downscaler(
+                        "auto", {"type": "image" if method == "average" else "segmentation"}, opts)
+                else:
+                    reused[dkey] = downscaling.get_downscaler(method, info=None, options=opts)
             ds = reused[dkey]
             a_before = a.copy()
             with np.errstate(all="ignore"):
